@@ -1316,9 +1316,13 @@ class LicenseSymbol(BaseSymbol):
             other,
             (LicenseSymbol, LicenseWithExceptionSymbol, LicenseSymbolLike),
         ):
-            return str(self) < str(other)
+            return self.sort_key() < other.sort_key()
         else:
             return NotImplemented
+
+    def sort_key(self):
+        # sort on the string then break ties between different symbols
+        return str(self), 0, self.key, bool(self.is_exception), '', False
 
     __nonzero__ = __bool__ = lambda s: True
 
@@ -1414,7 +1418,7 @@ class LicenseSymbolLike(LicenseSymbol):
     def __lt__(self, other):
         if isinstance(
             other, (LicenseSymbol, LicenseWithExceptionSymbol, LicenseSymbolLike)):
-            return str(self) < str(other)
+            return self.sort_key() < other.sort_key()
         else:
             return NotImplemented
 
@@ -1538,9 +1542,19 @@ class LicenseWithExceptionSymbol(BaseSymbol):
             other,
             (LicenseSymbol, LicenseWithExceptionSymbol, LicenseSymbolLike)
         ):
-            return str(self) < str(other)
+            return self.sort_key() < other.sort_key()
         else:
             return NotImplemented
+
+    def sort_key(self):
+        # sort on the string then break ties between different symbols
+        lic = self.license_symbol
+        exc = self.exception_symbol
+        return (
+            str(self), 1,
+            lic.key, bool(lic.is_exception),
+            exc.key, bool(exc.is_exception),
+        )
 
     __nonzero__ = __bool__ = lambda s: True
 
